@@ -277,6 +277,142 @@ def run_severity(task):
     return out
 
 
+# ------------------------------------------------------------------ `list`: the serialisable report
+
+def _json_models(I):
+    from mirsym.models import map_insert, map_find, opt
+    st = I.stubs
+    st['Map::new'] = lambda I2, a, ci, dt: MapVal((), 'JsonMap')
+
+    def jinsert(I2, a, ci, dt):
+        return opt(map_insert(I2, a[0], a[1], a[2]))
+    st['Map::insert'] = jinsert
+
+    def jindex(I2, a, ci, dt):
+        v = I2.deref_value(a[0]) if isinstance(a[0], Ref) else a[0]
+        while isinstance(v, Ref):
+            v = I2.deref_value(v)
+        key = a[1]
+        if isinstance(v, Struct) and v.name == 'Object':
+            mv = v.f[0]
+            i = map_find(I2, mv, key)
+            if i >= 0:
+                return Ref(Cell(mv.entries[i].f[1]), ())
+        return Ref(Cell(Opaque('json', None)), ())
+    st['<Value as Index>::index'] = jindex
+
+    def as_u64(I2, a, ci, dt):
+        v = I2.deref_value(a[0]) if isinstance(a[0], Ref) else a[0]
+        if isinstance(v, Opaque) and v.tag == 'json':
+            p = v.data
+            p = I2.deref_value(p) if isinstance(p, Ref) else p
+            while isinstance(p, Ref):
+                p = I2.deref_value(p)
+            if isinstance(p, int) and not isinstance(p, bool) or is_sym(p):
+                return Some(p)
+        return NONE
+    st['Value::as_u64'] = as_u64
+
+
+def run_list(task):
+    nblocks, order, want_sample = task
+    prog = driver.load_program()
+    stats = PathStats()
+    f = prog.find_method('ValidationContext', 'to_serializable_report')
+    if f is None:
+        raise EngineError('ValidationContext::to_serializable_report not found')
+    out = dict(violations=[], samples=[], obligations=0, cover={}, panic_paths=0)
+    holder = {}
+    roles = set()
+
+    def run_path(I):
+        I.map_order = lambda n: [x for x in order if x < n] if len(order) >= n else list(range(n))
+        _json_models(I)
+        lines = []
+        bwcs = []
+        for b in range(nblocks):
+            ln = I.fresh_int('line%d' % b, 1, 1 << 32)
+            col = I.fresh_int('col%d' % b, 1, 1 << 32)
+            cm = I.fresh_bool('cm%d' % b)
+            lines.append((ln, col, cm))
+            at = {'name': b'n%d' % b} if b % 2 == 0 else {'keep-sorted': b''}
+            blk = mk_block(prog, I, at, (ln, col), (ln, col + 5), (0, 0), (ln, col + 9), (ln + 2, 1))
+            bwcs.append(mk_bwc(prog, blk, content_modified=cm))
+        holder['lines'] = lines
+        ctx = I.deref_value(mk_context(prog, I, [(b'f.py', b'x', bwcs), (b'g.py', b'x', [])]))
+        return I.call_fn(f, [Ref(Cell(ctx), ())])
+
+    def viol(I, cond, role, summary):
+        out['obligations'] += 1
+        if role in roles:
+            return
+        if I.check(cond):
+            roles.add(role)
+            m = I.solver.model()
+            out['violations'].append(dict(role=role, summary=summary, list_blocks=[[mval(m, l), mval(m, c), mval(m, cm)] for l, c, cm in holder['lines']]))
+
+    def payload(I, jv):
+        v = jv.data if isinstance(jv, Opaque) else jv
+        v = I.deref_value(v) if isinstance(v, Ref) else v
+        while isinstance(v, Ref):
+            v = I.deref_value(v)
+        return v
+
+    for I, pk, val in explore(prog, models.M, run_path, stats=stats, max_paths=20000):
+        if pk == 'panic':
+            viol(I, z3.BoolVal(True), 'panic', 'panic: %s' % val.msg[:120])
+            continue
+        lines = holder['lines']
+        files = {bytes(e.f[0].b).decode(): e.f[1] for e in val.entries}
+        if set(files) != {'f.py', 'g.py'}:
+            viol(I, z3.BoolVal(True), 'list-file-keys-wrong', 'report keys %s' % sorted(files))
+            continue
+        items = files['f.py'].items
+        if len(items) != nblocks:
+            viol(I, z3.BoolVal(True), 'list-loses-or-duplicates-blocks', '%d blocks selected, %d listed' % (nblocks, len(items)))
+            out['cover']['list'] = 1
+            continue
+        got = []
+        for it in items:
+            obj = it.f[0] if isinstance(it, Struct) and it.name == 'Object' else None
+            if obj is None:
+                viol(I, z3.BoolVal(True), 'list-entry-not-an-object', 'entry %r' % (it,))
+                continue
+            d = {bytes(e.f[0].b).decode(): payload(I, e.f[1]) for e in obj.entries}
+            got.append(d)
+        if any(set(d) != {'name', 'line', 'column', 'is_content_modified', 'attributes'} for d in got):
+            viol(I, z3.BoolVal(True), 'list-fields-wrong', 'fields %s' % [sorted(d) for d in got])
+            continue
+        # every block appears exactly once: match by name/attributes (distinct per block by construction)
+        for b, (ln, col, cm) in enumerate(lines):
+            want_name = ('n%d' % b) if b % 2 == 0 else '(unnamed)'
+            cands = []
+            for d in got:
+                nm = d['name']
+                nm = bytes(nm.b).decode() if isinstance(nm, (SStr, SString)) else None
+                attrs = d['attributes']
+                has_name = any(bytes(e.f[0].b) == b'name' and bytes(e.f[1].b) == (b'n%d' % b) for e in attrs.entries) if isinstance(attrs, MapVal) else False
+                if nm == want_name and (has_name or b % 2 == 1):
+                    cands.append(d)
+            if b % 2 == 1:
+                # unnamed blocks are told apart by position
+                ok = zor([z3.And(d['line'] == ln, d['column'] == col) for d in cands]) if cands else z3.BoolVal(False)
+                viol(I, z3.Not(ok), 'list-block-missing-or-misplaced', 'unnamed block %d not listed at its line/column' % b)
+            else:
+                if len(cands) != 1:
+                    viol(I, z3.BoolVal(True), 'list-loses-or-duplicates-blocks', 'block n%d listed %d times' % (b, len(cands)))
+                    continue
+                d = cands[0]
+                viol(I, z3.Or(d['line'] != ln, d['column'] != col), 'list-block-missing-or-misplaced', 'block n%d listed at a wrong position' % b)
+                flag = d['is_content_modified']
+                viol(I, flag != cm if (is_sym(flag) or is_sym(cm)) else z3.BoolVal(flag != cm), 'list-modified-flag-wrong', 'is_content_modified of n%d differs' % b)
+        for a, b2 in zip(got, got[1:]):
+            viol(I, a['line'] > b2['line'], 'list-not-sorted-by-line', 'listed blocks are not sorted by line')
+        out['cover']['list'] = 1
+    out.update(Agg(PROP, 'x').stats_from(stats))
+    return out
+
+
 # ------------------------------------------------------------------ replay
 
 def confirm(binary, v, idx):
@@ -300,6 +436,20 @@ def confirm(binary, v, idx):
             v['confirmed'] = True
             v['replay'] = save_replay(PROP, '%s-%d' % (v['role'], idx), files, "'**'",
                                       'expected exit %d and %d diagnostics; %s' % (want, len(v['severities']), v['summary']), v)
+        return v
+    if 'list_blocks' in v:
+        # two blocks whose start tags share a line, one later block
+        files = {'x.c': b'/* <block name="first"> */ int a; /* </block> */ /* <block name="second"> */ int b; /* </block> */\n/* <block name="third"> */\nint c;\n/* </block> */\n'}
+        r = run_scan(binary, files, ['**'], extra_args=['list'])
+        names = []
+        try:
+            names = sorted(b_['name'] for b_ in json.loads(r['stdout']).get('x.c', []))
+        except ValueError:
+            pass
+        v['observed'] = dict(code=r['code'], names=names)
+        if names != ['first', 'second', 'third'] or r['code'] != 0:
+            v['confirmed'] = True
+            v['replay'] = save_replay(PROP, '%s-%d' % (v['role'], idx), files, "list '**'", 'expected blocks first, second, third; ' + v['summary'], v)
         return v
     if 'plan' in v:
         # two validators reporting on the same file: keep-sorted and keep-unique blocks in one file
@@ -363,6 +513,7 @@ def main(tier):
                 mtasks.append((nv, nf, vo, fo, False))
     results += pmap(run_merge, mtasks)
     results += pmap(run_severity, [(L, False) for L in range(-1, b['sev_max'] + 1)])
+    results += pmap(run_list, [(n, o, False) for n in (1, 2, 3) for o in ((0, 1, 2), (2, 1, 0))])
     for r in results:
         agg.add(r)
     by_role = {}
@@ -394,11 +545,11 @@ def main(tier):
     return finish(
         agg, bounds,
         assumptions=['std::thread::spawn/join are modelled as a sequential schedule (absence of data races is the type system\'s job)',
-                     'the async half of validators::run (tokio, coroutine MIR) is outside; so is the JSON text layout (serde_json) and `list`',
+                     'the async half of validators::run (tokio, coroutine MIR) is outside; so is the JSON text layout; for `list` the report structure (to_serializable_report) is decided with serde_json::Map / to_value / Value indexing as structural models, the printing is outside',
                      'stderr, to_writer_pretty, write_fmt and process::exit are recording stubs'],
         stubs=['std::io::stderr / Stderr::lock', 'serde_json::to_writer_pretty (records its argument)', 'Write::write_fmt', 'process::exit (ends the path)',
                'ValidatorSync::validate for model validators in the merge harness'],
-        must_cover=['exit0', 'exit1', 'merge-ok', 'merge-err', 'two validators on one file', 'parsed', 'rejected', 'default'],
+        must_cover=['exit0', 'exit1', 'merge-ok', 'merge-err', 'two validators on one file', 'parsed', 'rejected', 'default', 'list'],
         explanation='exit code and printed map compared with the severities chosen by the solver on every path; merged map compared with the union of the validators\' maps under several iteration orders')
 
 
